@@ -60,6 +60,8 @@ pub fn alphabet(w: i32, h: i32) -> Vec<Op> {
         Op::PushClipRect(w - 1, h - 1, 1, 1),
         Op::PopClip,
         // strokes
+        // a fill that is invisible because of its options (global alpha 0), not because of its shape
+        Op::Fill(PathSpec::new(tri(0.25, hf - 0.25)), SrcSpec::Solid(RED), Opts { mode: BlendMode::SrcOver, alpha: 0.0, aa: true }),
         // a draw without antialiasing that adds no edge (whatever mode it leaves behind shows in the
         // next clip push)
         Op::Fill(PathSpec::new(tri(-5.0, -2.0)), SrcSpec::Solid(RED), Opts { mode: BlendMode::SrcOver, alpha: 1.0, aa: false }),
@@ -581,7 +583,7 @@ impl Check for C10 {
 
     fn run(&self, run: &Run) {
         let q = run.tier.quick();
-        run.rule("histories over a 43-call alphabet (fills of very different vertical extents, off-surface and degenerate paths, paths without MoveTo / without Close, curves, clip pushes of on/off-surface paths, clip rect, pops, zero-width and dashed strokes, singular / identity / fractional transforms, clear, fast-path fill_rect, a transparent fill_rect, layers (one composited with Src), a surface copy) are explored exhaustively; every transition is compared with the same call on a fresh target holding the same visible state (open layers re-established by replaying their draws, and a second time by pushing them and copying their pixels in; for histories of length <= 2, and pops of length 3, the fresh target lives on a fresh thread); non-trivial = history contains at least two drawing calls");
+        run.rule("histories over a 44-call alphabet (fills of very different vertical extents, off-surface and degenerate paths, paths without MoveTo / without Close, curves, clip pushes of on/off-surface paths, clip rect, pops, zero-width and dashed strokes, singular / identity / fractional transforms, clear, fast-path fill_rect, a transparent fill_rect, layers (one composited with Src), a surface copy) are explored exhaustively; every transition is compared with the same call on a fresh target holding the same visible state (open layers re-established by replaying their draws, and a second time by pushing them and copying their pixels in; for histories of length <= 2, and pops of length 3, the fresh target lives on a fresh thread); non-trivial = history contains at least two drawing calls");
         run.assume("merging: two histories with equal (all buffers, transform, clip stack, layer stack, rasteriser idle flag, hidden path cursor) differ at most in the rasteriser's arena address and cur_y, both re-initialised before use; keys are 64-bit hashes");
         no_growth(run, 4, 4);
         same_call_twice(run, 4, 4);
